@@ -31,19 +31,34 @@ fn err_class(e: &str) -> String {
     match (e.find('['), e.find(']')) { (Some(a), Some(b)) if a < b => format!("(err {})", &e[a + 1..b]), _ => "(err ?)".into() }
 }
 
-fn fold_case(kind: &str, n: usize, scoped: bool) -> Case {
+fn fold_case(kind: &str, n: usize, scoped: bool) -> Case { fold_case_styled(kind, n, scoped, 0) }
+
+/// `style` 0: leaves `x_i`; 1: `x_i * (i + 1)` / `not b_i`; 2: `x_i + x_{i + 1}` / `b_i and b_{i + 1}`.
+/// The leaves of the request are the implementation's own transformation of each leaf on its own.
+fn fold_case_styled(kind: &str, n: usize, scoped: bool, style: u8) -> Case {
     let logic = matches!(kind, "all" | "any" | "xor");
-    let v = if logic { "b" } else { "x" };
-    let agg = if scoped { format!("{}(i in 0..{}) {{ {}_i }}", kind, n, v) } else { format!("{}{{ {} }}", kind, (0..n).map(|i| format!("{}_{}", v, i)).collect::<Vec<_>>().join(", ")) };
-    let src = format!("min 1\ns.t.\n    {}{}\ndefine\n    x_i as Real(0, 9) for i in 0..8\n    b_i as Boolean for i in 0..8\n", agg, if logic { "" } else { " <= 1" });
-    let leaves = (0..n).map(|i| format!("(var \"{}_{}\")", v, i)).collect::<Vec<_>>().join(" ");
+    let leaf = |i: &str| -> String {
+        match (logic, style) {
+            (false, 0) => format!("x_{}", i), (false, 1) => format!("x_{} * ({} + 1)", i, i), (false, _) => format!("(x_{} + x_{{{} + 1}})", i, i),
+            (true, 0) => format!("b_{}", i), (true, 1) => format!("not b_{}", i), (true, _) => format!("(b_{} and b_{{{} + 1}})", i, i),
+        }
+    };
+    let agg = if scoped { format!("{}(i in 0..{}) {{ {} }}", kind, n, leaf("i")) } else { format!("{}{{ {} }}", kind, (0..n).map(|i| leaf(&i.to_string())).collect::<Vec<_>>().join(", ")) };
+    let decl = "define\n    x_i as Real(0, 9) for i in 0..9\n    b_i as Boolean for i in 0..9\n";
+    let src = format!("min 1\ns.t.\n    {}{}\n{}", agg, if logic { "" } else { " <= 1" }, decl);
+    let leaves = if style == 0 {
+        (0..n).map(|i| format!("(var \"{}_{}\")", if logic { "b" } else { "x" }, i)).collect::<Vec<_>>().join(" ")
+    } else {
+        let lsrc = format!("min 1\ns.t.\n    x_0 >= 0\n{}{}", (0..n).map(|i| format!("    {}{}\n", leaf(&i.to_string()), if logic { "" } else { " <= 1" })).collect::<String>(), decl);
+        match compile(&lsrc) { Ok(m) => m.constraints().iter().skip(1).map(|c| sx::exp(c.lhs())).collect::<Vec<_>>().join(" "), Err(_) => "(leaf-error)".into() }
+    };
     let req = format!("fold {} ({})", kind, leaves).replace("( ", "(");
     let imp = match compile(&src) {
         Ok(m) => format!("(ok {})", sx::exp(m.constraints()[0].lhs())),
         Err(e) => err_class(&e),
     };
     let oracle = if imp.starts_with("(ok") { format!("fold-value {} ({}) {}", kind, leaves, imp) } else { String::new() };
-    let mut c = mk(req, imp, &[&format!("fold:{}", kind), &format!("fold-size:{}", n.min(4)), if scoped { "fold-form:scoped" } else { "fold-form:block" }], src);
+    let mut c = mk(req, imp, &[&format!("fold:{}", kind), &format!("fold-size:{}", n.min(4)), if scoped { "fold-form:scoped" } else { "fold-form:block" }, &format!("fold-leaf-style:{}", style)], src);
     c.oracle = oracle;
     c
 }
@@ -112,6 +127,14 @@ pub fn model_cases(r: &mut Rng, n: usize) -> Vec<Case> {
     }
     for kind in ["min", "max", "avg", "abs", "all", "any", "xor"] { out.push(fold_case(kind, 1, false)); }
     out.push(fold_case("abs", 2, false));
+    out.push(fold_case("abs", 0, false));
+    // composite leaves (arithmetic on the iteration variable, computed compound indexes, logic operators)
+    for style in [1u8, 2] {
+        for kind in ["sum", "prod", "avg", "min", "max", "all", "any", "xor"] {
+            for k in 0..5 { out.push(fold_case_styled(kind, k, true, style)); if k > 0 && kind != "sum" && kind != "prod" { out.push(fold_case_styled(kind, k, false, style)); } }
+        }
+        out.push(fold_case_styled("abs", 1, false, style));
+    }
     // ---- ranges (boundary pairs exhaustively, then random)
     let mut pairs: Vec<(i64, i64)> = vec![];
     for lo in -3..=3 { for hi in -3..=4 { pairs.push((lo, hi)); } }
@@ -247,7 +270,7 @@ impl<'a> FragGen<'a> {
     fn ints(&mut self) -> Vec<i64> { (0..self.r.below(4)).map(|_| self.r.range(0, 5)).collect() }
     fn iter(&mut self, bound: &mut Vec<String>) -> ItG {
         let mut name = |g: &mut Self| { g.fresh += 1; format!("v{}", g.fresh) };
-        let k = self.r.below(10);
+        let k = if self.r.chance(1, 25) { 9 } else { self.r.below(9) };
         let it = match k {
             0 | 1 | 2 => { let lo = if self.r.chance(1, 2) { Ce::Lit(self.r.range(-2, 2)) } else { self.leaf(bound) };
                 let hi = if self.r.chance(1, 2) { self.leaf(bound) } else { Ce::Add(Box::new(self.leaf(bound)), Box::new(Ce::Lit(self.r.range(0, 3)))) };
@@ -365,4 +388,243 @@ pub fn check_unrolled_text(orig_imp: &str, logic: bool, model_answer: &str) -> R
     } else if model_answer == "(err)" {
         if orig_imp == "(err)" { Ok(()) } else { Err(format!("the reference rejects the program, the compiler expands it to {}", orig_imp)) }
     } else { Err(format!("unexpected model answer {}", model_answer)) }
+}
+
+// ------------------------------------------------------------------------------------------------
+// graph builtins (nodes / edges / neigh_edges / neigh_edges_of) and set functions on values of any kind
+// ------------------------------------------------------------------------------------------------
+struct GN { name: String, edges: Vec<(String, Option<f64>)> }
+fn graph_txt(g: &[GN]) -> String {
+    let nodes: Vec<String> = g.iter().map(|n| if n.edges.is_empty() { n.name.clone() } else {
+        format!("{} -> [{}]", n.name, n.edges.iter().map(|(d, w)| match w { Some(w) => format!("{}: {}", d, if *w < 0.0 { format!("-{}", crate::pre_gen::fmt_f64(-*w)) } else { crate::pre_gen::fmt_f64(*w) }), None => d.clone() }).collect::<Vec<_>>().join(", ")) }).collect();
+    format!("Graph {{ {} }}", nodes.join(", "))
+}
+fn graph_sx(g: &[GN]) -> String {
+    format!("(graph{})", g.iter().map(|n| format!(" (node {}{})", sx::q(&n.name), n.edges.iter().map(|(d, w)| format!(" (edge {} {})", sx::q(d), match w { Some(w) => sx::num(*w), None => "none".into() })).collect::<String>())).collect::<String>())
+}
+fn gen_graph(r: &mut Rng) -> Vec<GN> {
+    let names = ["P", "Q", "R", "T2", "U"];
+    let n = 1 + r.below(5);
+    let mut g: Vec<GN> = (0..n).map(|i| GN { name: names[i].to_string(), edges: vec![] }).collect();
+    for i in 0..n { for j in 0..n { if r.chance(2, 5) { let w = match r.below(4) { 0 => None, 1 => Some(r.range(-4, 9) as f64 / 2.0), 2 => Some(0.0), _ => Some(r.range(1, 5) as f64) }; g[i].edges.push((names[j].to_string(), w)); } } }
+    // `Graph { P, Q }` without any edge list is read as a block function: keep one edge
+    if g.iter().all(|x| x.edges.is_empty()) { let d = g[n - 1].name.clone(); g[0].edges.push((d, None)); }
+    g
+}
+/// rows `(name fragments…, coefficient)` read back from `c_<names>: w * z >= 0 for …`
+fn graph_rows(src: &str, with_weight: bool) -> String {
+    match compile(src) {
+        Ok(m) => {
+            let rows: Vec<String> = m.constraints().iter().skip(1).map(|c| {
+                let names: Vec<String> = c.name().split('_').skip(1).map(|s| sx::q(s)).collect();
+                let w = if with_weight { match c.lhs() { rooc::model_transformer::Exp::BinOp(_, a, _) => match &**a { rooc::model_transformer::Exp::Number(x) => format!(" {}", sx::num(*x)), _ => " ?".into() }, _ => " ?".into() } } else { String::new() };
+                if names.len() == 1 && !with_weight { names[0].clone() } else { format!("({}{})", names.join(" "), w) }
+            }).collect();
+            format!("(ok {})", rows.join(" ")).replace("(ok )", "(ok)")
+        }
+        Err(e) => err_class(&e),
+    }
+}
+
+pub fn graph_cases(r: &mut Rng, n: usize) -> Vec<Case> {
+    let mut out = vec![];
+    for _ in 0..n {
+        let g = gen_graph(r);
+        let (gt, gs) = (graph_txt(&g), graph_sx(&g));
+        let decl = format!("where\n    let G = {}\ndefine\n    z as Real\n", gt);
+        for f in ["edges", "E"] {
+            let src = format!("min 1\ns.t.\n    z >= 0\n    c_u_v: w * z >= 0 for (u, v, w) in {}(G)\n{}", f, decl);
+            out.push(mk(format!("graph edges {}", gs), graph_rows(&src, true), &["graph:edges"], src));
+        }
+        for f in ["nodes", "V"] {
+            let src = format!("min 1\ns.t.\n    z >= 0\n    c_u: z >= 0 for u in {}(G)\n{}", f, decl);
+            out.push(mk(format!("graph nodes {}", gs), graph_rows(&src, false), &["graph:nodes"], src));
+        }
+        for f in ["neigh_edges", "N"] {
+            let src = format!("min 1\ns.t.\n    z >= 0\n    c_u_v: w * z >= 0 for u in nodes(G), (_, v, w) in {}(u)\n{}", f, decl);
+            out.push(mk(format!("graph neighall {}", gs), graph_rows(&src, true), &["graph:neigh_edges"], src));
+        }
+        for f in ["neigh_edges_of", "N_of"] {
+            let name = if r.chance(1, 5) { "Z9".to_string() } else { g[r.below(g.len())].name.clone() };
+            let src = format!("min 1\ns.t.\n    z >= 0\n    c_v: w * z >= 0 for (_, v, w) in {}(\"{}\", G)\n{}", f, name, decl);
+            out.push(mk(format!("graph neighof {} {}", gs, sx::q(&name)), graph_rows(&src, true), &["graph:neigh_edges_of"], src));
+        }
+    }
+    out
+}
+
+/// set functions over arrays of numbers (integers, halves), strings, booleans and mixtures, read back from the
+/// names `c_<element>` of a quantified constraint
+pub fn svset_cases(r: &mut Rng, n: usize) -> Vec<Case> {
+    #[derive(Clone)]
+    enum SV { I(i64), F(f64), S(String), B(bool) }
+    fn txt(v: &SV) -> String { match v { SV::I(i) => i.to_string(), SV::F(x) => crate::pre_gen::fmt_f64(*x), SV::S(s) => format!("\"{}\"", s), SV::B(b) => b.to_string() } }
+    fn sxv(v: &SV) -> String { match v { SV::I(i) => format!("(num {})", sx::num(*i as f64)), SV::F(x) => format!("(num {})", sx::num(*x)), SV::S(s) => format!("(str {})", sx::q(s)), SV::B(b) => format!("(bool {})", b) } }
+    let mut out = vec![];
+    for i in 0..n {
+        let mode = i % 5;
+        let mut mk_arr = |r: &mut Rng| -> Vec<SV> {
+            let len = r.below(5);
+            (0..len).map(|_| match mode {
+                0 => SV::I(r.range(0, 5)),
+                1 => if r.chance(1, 2) { SV::F(r.range(0, 10) as f64 / 2.0) } else { SV::I(r.range(0, 5)) },
+                2 => SV::S(r.pick(&["a", "b", "c1", "1"]).to_string()),
+                3 => match r.below(3) { 0 => SV::S(r.pick(&["a", "1", "T"]).to_string()), 1 => SV::I(r.range(0, 2)), _ => SV::F(r.range(0, 4) as f64 / 2.0) },
+                _ => if r.chance(1, 2) { SV::B(r.chance(1, 2)) } else { SV::I(r.range(0, 2)) },
+            }).collect()
+        };
+        let (a, b) = (mk_arr(r), mk_arr(r));
+        if a.is_empty() || b.is_empty() { continue; }
+        for f in ["union", "intersection", "difference"] {
+            let src = format!("min 1\ns.t.\n    z >= 0\n    c_v: z >= 0 for v in {}(A, B)\nwhere\n    let A = [{}]\n    let B = [{}]\ndefine\n    z as Real\n", f,
+                a.iter().map(txt).collect::<Vec<_>>().join(", "), b.iter().map(txt).collect::<Vec<_>>().join(", "));
+            // the type checker is not involved (parse_and_transform); arrays of different kinds are fine at run time
+            let imp = graph_rows(&src, false);
+            let req = format!("svset {} ({}) ({})", f, a.iter().map(sxv).collect::<Vec<_>>().join(" "), b.iter().map(sxv).collect::<Vec<_>>().join(" "));
+            out.push(mk(req, imp, &[&format!("svset:{}", f), &format!("svset-mode:{}", ["ints", "ints+halves", "strings", "mixed", "bools+ints"][mode])], src));
+        }
+    }
+    out
+}
+
+// ------------------------------------------------------------------------------------------------
+// whole programs of the iteration fragment (`Rooc/Pre/Program.lean`): `where` constants, declarations with
+// iterations and bounds, named / quantified constraints, objective — full `Model` incl. usage counts
+// ------------------------------------------------------------------------------------------------
+enum NameG { Plain(String), Cv(String, Vec<Ce>) }
+enum TyG { Bool, Real(Option<(Ce, Ce)>), NnReal(Option<(Ce, Ce)>), Int(Ce, Ce) }
+struct DeclG { vars: Vec<NameG>, ty: TyG, its: Vec<ItG> }
+struct ConsG { name: Option<NameG>, lhs: Me, rel: Option<(&'static str, Me)>, its: Vec<ItG> }
+
+fn idx_txt(c: &Ce) -> String { match c { Ce::Lit(i) if *i >= 0 => format!("_{}", i), Ce::Var(n) => format!("_{}", n), c => format!("_{{{}}}", ce_txt(c)) } }
+fn name_txt(n: &NameG) -> String { match n { NameG::Plain(s) => s.clone(), NameG::Cv(b, ix) => format!("{}{}", b, ix.iter().map(idx_txt).collect::<String>()) } }
+fn name_sx(n: &NameG) -> String { match n { NameG::Plain(s) => format!("(plain {})", sx::q(s)), NameG::Cv(b, ix) => format!("(cv {}{})", sx::q(b), ix.iter().map(|c| format!(" {}", ce_sx(c))).collect::<String>()) } }
+fn ty_txt(t: &TyG) -> String {
+    match t { TyG::Bool => "Boolean".into(), TyG::Real(None) => "Real".into(), TyG::NnReal(None) => "NonNegativeReal".into(),
+        TyG::Real(Some((a, b))) => format!("Real({}, {})", ce_txt(a), ce_txt(b)), TyG::NnReal(Some((a, b))) => format!("NonNegativeReal({}, {})", ce_txt(a), ce_txt(b)),
+        TyG::Int(a, b) => format!("IntegerRange({}, {})", ce_txt(a), ce_txt(b)) }
+}
+fn ty_sx(t: &TyG) -> String {
+    match t { TyG::Bool => "bool".into(), TyG::Real(None) => "(real)".into(), TyG::NnReal(None) => "(nnreal)".into(),
+        TyG::Real(Some((a, b))) => format!("(real {} {})", ce_sx(a), ce_sx(b)), TyG::NnReal(Some((a, b))) => format!("(nnreal {} {})", ce_sx(a), ce_sx(b)),
+        TyG::Int(a, b) => format!("(int {} {})", ce_sx(a), ce_sx(b)) }
+}
+fn its_txt(its: &[ItG]) -> String { if its.is_empty() { String::new() } else { format!(" for {}", its.iter().map(it_txt).collect::<Vec<_>>().join(", ")) } }
+fn its_sx(its: &[ItG]) -> String { format!("({})", its.iter().map(it_sx).collect::<Vec<_>>().join(" ")) }
+fn cmp_name(c: &str) -> &'static str { match c { "<=" => "le", ">=" => "ge", "=" => "eq", "<" => "lt", _ => "gt" } }
+
+fn wide_decls(logic: bool) -> Vec<DeclG> {
+    let r = |v: &str| ItG { vars: vec![v.to_string()], src: SrcG::Range(Ce::Lit(-8), Ce::Lit(30), true) };
+    let b = if logic { "b" } else { "x" };
+    let ty = || if logic { TyG::Bool } else { TyG::Real(Some((Ce::Lit(0), Ce::Lit(9)))) };
+    vec![
+        DeclG { vars: vec![NameG::Plain(if logic { "bz".into() } else { "z".into() })], ty: ty(), its: vec![] },
+        DeclG { vars: vec![NameG::Cv(b.into(), vec![Ce::Var("q".into())])], ty: ty(), its: vec![] },
+        DeclG { vars: vec![NameG::Cv(b.into(), vec![Ce::Var("a".into())])], ty: ty(), its: vec![r("a")] },
+        DeclG { vars: vec![NameG::Cv(b.into(), vec![Ce::Var("a".into()), Ce::Var("c".into())])], ty: ty(), its: vec![r("a"), r("c")] },
+    ]
+}
+
+pub fn program_cases(r: &mut Rng, n: usize) -> Vec<Case> {
+    let mut out = vec![];
+    let mut pending: Vec<(String, String, String)> = vec![];
+    for i in 0..n {
+        let logic = i % 4 == 3;
+        let mut g = FragGen { r, fresh: 0, logic };
+        // ---- where constants (integers; later ones may use earlier ones)
+        let mut consts: Vec<(String, Ce)> = vec![];
+        let mut bound: Vec<String> = vec![];
+        for k in 0..g.r.below(4) {
+            let name = if g.r.chance(1, 12) && !bound.is_empty() { bound[0].clone() } else { format!("k{}", k) }; // a duplicate `let` is an error
+            let c = g.ce(&bound, 1);
+            if !bound.contains(&name) { bound.push(name.clone()); }
+            consts.push((name, c));
+        }
+        // ---- declarations: the wide families every expression can refer to, plus a few varied ones
+        let mut decls = wide_decls(logic);
+        for k in 0..g.r.below(3) {
+            let mut b2 = bound.clone();
+            let its: Vec<ItG> = (0..g.r.below(3)).map(|_| g.iter(&mut b2)).collect();
+            let idx: Vec<Ce> = if its.is_empty() { vec![Ce::Lit(g.r.range(0, 3))] } else { its.iter().filter(|it| it.vars[0] != "_").take(2).map(|it| Ce::Var(it.vars[0].clone())).collect() };
+            let base = if g.r.chance(1, 8) { if logic { "b".to_string() } else { "x".to_string() } } else { format!("y{}", k) }; // re-declaring x_…: same type is fine, another type is an error
+            let ty = match g.r.below(7) {
+                0 => TyG::Bool, 1 => TyG::Real(None), 2 => TyG::NnReal(None),
+                // mostly well-formed bounds (lo <= hi, non-negative lower bound), sometimes arbitrary ones
+                3 => { let a = g.ce(&b2, 1); if g.r.chance(1, 6) { TyG::Real(Some((a, g.ce(&b2, 1)))) } else { let d = g.r.range(0, 3); TyG::Real(Some((a.clone(), Ce::Add(Box::new(a), Box::new(Ce::Lit(d)))))) } }
+                4 => { let m = if g.r.chance(1, 8) { -1 } else { 0 }; let lo = g.r.range(m, 2); TyG::NnReal(Some((Ce::Lit(lo), Ce::Add(Box::new(Ce::Lit(lo)), Box::new(g.ce(&[], 0)))))) }
+                5 => { let a = g.ce(&b2, 1); let m = if g.r.chance(1, 8) { -1 } else { 0 }; let d = g.r.range(m, 4); TyG::Int(a.clone(), Ce::Add(Box::new(a), Box::new(Ce::Lit(d)))) }
+                _ => TyG::Real(Some((Ce::Lit(0), Ce::Lit(9)))),
+            };
+            let mut vars = vec![if idx.is_empty() { NameG::Plain(format!("w{}", k)) } else { NameG::Cv(base, idx) }];
+            if g.r.chance(1, 4) { vars.push(NameG::Plain(format!("w{}", k + 5))); }
+            decls.push(DeclG { vars, ty, its });
+        }
+        // ---- objective and constraints
+        let obj = match g.r.below(4) { 0 => None, 1 => Some(("max", g.me(&bound, 2))), _ => Some(("min", g.me(&bound, 1))) };
+        let obj = if logic { None } else { obj };
+        let mut cons: Vec<ConsG> = vec![ConsG { name: None, lhs: Me::Var(if logic { "bz".into() } else { "z".into() }), rel: if logic { None } else { Some((">=", Me::Lit(0))) }, its: vec![] }];
+        for k in 0..1 + g.r.below(3) {
+            let mut b2 = bound.clone();
+            let its: Vec<ItG> = (0..g.r.below(3)).map(|_| g.iter(&mut b2)).collect();
+            let dl = 1 + g.r.below(2) as u32; let lhs = g.me(&b2, dl);
+            let rel = if logic { None } else { Some((*g.r.pick(&["<=", ">=", "=", "<", ">"]), g.me(&b2, 1))) };
+            let vars_in_scope: Vec<String> = its.iter().flat_map(|it| it.vars.clone()).filter(|v| v != "_").collect();
+            let name = match g.r.below(4) {
+                0 => None,
+                1 => Some(NameG::Plain(format!("row{}", k))),
+                _ => if vars_in_scope.is_empty() { Some(NameG::Cv(format!("c{}", k), vec![Ce::Lit(g.r.range(0, 2))])) } else { Some(NameG::Cv(format!("c{}", k), vars_in_scope.iter().take(2).map(|v| if g.r.chance(1, 5) { Ce::Add(Box::new(Ce::Var(v.clone())), Box::new(Ce::Lit(1))) } else { Ce::Var(v.clone()) }).collect())) },
+            };
+            cons.push(ConsG { name, lhs, rel, its });
+        }
+        // ---- text and protocol form
+        let mut text = match &obj { Some((s, e)) => format!("{} {}\n", s, me_txt(e)), None => "solve\n".to_string() };
+        text.push_str("s.t.\n");
+        for c in &cons {
+            text.push_str(&format!("    {}{}{}{}\n", match &c.name { Some(n) => format!("{}: ", name_txt(n)), None => String::new() }, me_txt(&c.lhs),
+                match &c.rel { Some((k, r)) => format!(" {} {}", k, me_txt(r)), None => String::new() }, its_txt(&c.its)));
+        }
+        if !consts.is_empty() { text.push_str("where\n"); for (n, c) in &consts { text.push_str(&format!("    let {} = {}\n", n, ce_txt(c))); } }
+        text.push_str("define\n");
+        for d in &decls { text.push_str(&format!("    {} as {}{}\n", d.vars.iter().map(name_txt).collect::<Vec<_>>().join(", "), ty_txt(&d.ty), its_txt(&d.its))); }
+        let sxp = format!("(prog (consts{}) {} (cons{}) (decls{}))",
+            consts.iter().map(|(n, c)| format!(" ({} {})", sx::q(n), ce_sx(c))).collect::<String>(),
+            match &obj { Some((s, e)) => format!("({} {})", s, me_sx(e)), None => "solve".into() },
+            cons.iter().map(|c| format!(" (con {} {} {} {})", match &c.name { Some(n) => name_sx(n), None => "none".into() }, me_sx(&c.lhs),
+                match &c.rel { Some((k, r)) => format!("({} {})", cmp_name(k), me_sx(r)), None => "none".into() }, its_sx(&c.its))).collect::<String>(),
+            decls.iter().map(|d| format!(" (decl ({}) {} {})", d.vars.iter().map(name_sx).collect::<Vec<_>>().join(" "), ty_sx(&d.ty), its_sx(&d.its))).collect::<String>());
+        if std::env::var("PRE_DEBUG").is_ok() { eprintln!("=== fragment program\n{}", text); }
+        if crate::props::c18::depths(&text).0 >= 9 { continue; }
+        let mut eclass = String::new();
+        let imp = match compile(&text) { Ok(m) => format!("(ok {})", sx::model(&m)), Err(e) => { eclass = err_class(&e); "(err)".into() } };
+        let mut c = mk(format!("transformprog {}", sxp), imp.clone(), &["fragment:program", if logic { "fragment:logic" } else { "fragment:arith" }], text.clone());
+        if !eclass.is_empty() { c.tags.push(format!("program-error:{}", eclass)); }
+        c.tags.push(if imp == "(err)" { "program-outcome:error".into() } else { "program-outcome:model".into() });
+        c.tags.push(format!("program-consts:{}", consts.len()));
+        c.nontrivial = imp != "(err)";
+        out.push(c);
+        pending.push((format!("C06 float unrollprogtext {}", sxp), imp, text));
+    }
+    // the model's hand-unrolled PROGRAM text, compiled by the real front end, against the real model
+    let lines: Vec<String> = pending.iter().map(|p| p.0.clone()).collect();
+    if let Some(answers) = ask_driver(&lines) {
+        for ((_, imp, text), ans) in pending.iter().zip(answers) {
+            let mut c = Case::default();
+            c.tags = vec!["stream:expand-model".into(), "fragment:program-unroll-text".into()];
+            c.imp = if imp.len() > 400 { format!("{}…", &imp[..400]) } else { imp.clone() };
+            c.nontrivial = imp != "(err)";
+            let verdict: Result<(), String> = if let Some(t) = ans.strip_prefix("(ok \"").and_then(|s| s.strip_suffix("\")")) {
+                let t = t.replace("\\n", "\n").replace("\\\"", "\"");
+                c.show = format!("{}\n--- unrolled by the model ---\n{}", text, t);
+                if t.contains("{  }") || crate::props::c18::depths(&t).0 >= 9 { Ok(()) } else {
+                    let again = match compile(&t) { Ok(m) => format!("(ok {})", sx::model(&m)), Err(e) => format!("(err) {}", e.chars().take(200).collect::<String>()) };
+                    let (a, b) = (crate::pre_sx::normalise_str(imp), crate::pre_sx::normalise_str(&again));
+                    if a == b || (imp == "(err)" && again.starts_with("(err)")) { Ok(()) } else { Err(format!("model of the program differs from the model of its hand-unrolled text:\n  program:  {}\n  unrolled: {}", a.chars().take(600).collect::<String>(), b.chars().take(600).collect::<String>())) }
+                }
+            } else if ans == "(err)" { c.show = text.clone(); if imp == "(err)" { Ok(()) } else { Err("the reference rejects the program, the compiler accepts it".into()) } }
+            else { Err(format!("unexpected model answer {}", ans.chars().take(200).collect::<String>())) };
+            if let Err(why) = verdict { c.impl_violation = Some(why); c.sig = Some("program-differs-from-model-unrolled-text".into()); }
+            out.push(c);
+        }
+    }
+    out
 }
